@@ -734,7 +734,8 @@ class WorkTree:
                 from dulwich.signature import get_signature_vendor
 
                 vendor = get_signature_vendor(config=config)
-                c.gpgsig = vendor.sign(c.as_raw_string(), keyid=keyid)
+                sig = vendor.sign(c.as_raw_string(), keyid=keyid)
+                c.gpgsig = sig.rstrip(b"\n")
             self._repo.object_store.add_object(c)
         else:
             try:
@@ -747,7 +748,8 @@ class WorkTree:
                     from dulwich.signature import get_signature_vendor
 
                     vendor = get_signature_vendor(config=config)
-                    c.gpgsig = vendor.sign(c.as_raw_string(), keyid=keyid)
+                    sig = vendor.sign(c.as_raw_string(), keyid=keyid)
+                    c.gpgsig = sig.rstrip(b"\n")
                 self._repo.object_store.add_object(c)
                 message_bytes = (
                     message.encode() if isinstance(message, str) else message
@@ -769,7 +771,8 @@ class WorkTree:
                     from dulwich.signature import get_signature_vendor
 
                     vendor = get_signature_vendor(config=config)
-                    c.gpgsig = vendor.sign(c.as_raw_string(), keyid=keyid)
+                    sig = vendor.sign(c.as_raw_string(), keyid=keyid)
+                    c.gpgsig = sig.rstrip(b"\n")
                 self._repo.object_store.add_object(c)
                 message_bytes = (
                     message.encode() if isinstance(message, str) else message
